@@ -230,6 +230,27 @@ def content_text(label, schema):
 
 # ------------------------------------------------------------------------------------------------------------
 # measured facts shared by the tools
+FROZEN_RE = re.compile(r"frozen@sha256:([0-9a-fA-F]{64})")
+
+
+def own_hermetic_slot(name):
+    """The cache file a `latest` / `frozen@sha256:<H>` reference denotes AT THIS MOMENT, or None: $HOME/.octave/standards/
+    default.oct.md if it exists; <H[:16]>.oct.md if it exists and the sha256 of its bytes, computed here and now, is H."""
+    std = Path(os.environ.get("HOME", "")) / ".octave" / "standards"
+    if name == "latest":
+        p = std / "default.oct.md"
+        return p if p.exists() else None
+    m = FROZEN_RE.fullmatch(name) if isinstance(name, str) else None
+    if m is None:
+        return None
+    digest = m.group(1).lower()
+    p = std / (digest[:16] + ".oct.md")
+    try:
+        return p if hashlib.sha256(p.read_bytes()).hexdigest() == digest else None
+    except OSError:
+        return None
+
+
 def schema_facts(name, hermetic):
     """What the loaders answer for `name`.  hermetic=True: frozen@ / latest go through the hermetic resolver (the
     dispatch octave_write documents); otherwise only the by-name loader."""
@@ -241,7 +262,12 @@ def schema_facts(name, hermetic):
     out["builtin"] = out["bdef"] is not None
     try:
         if hermetic and (name.startswith("frozen@") or name == "latest"):
-            sd = A.load_schema(A.resolve_hermetic_standard(name))
+            # the harness resolves the reference ITSELF (reads the slot and hashes its bytes now); never through
+            # core.hydrator, whose answer is what is being checked
+            slot = own_hermetic_slot(name)
+            if slot is None:
+                raise LookupError(name)
+            sd = A.load_schema(slot)
         else:
             sd = A.load_schema_by_name(name)
     except Exception:
@@ -498,6 +524,20 @@ def sha(text):
     return hashlib.sha256(text.encode("utf-8")).hexdigest()
 
 
+def strict_tokenize_input(text):
+    """what the strict path of octave_write tokenises: since /repo c296b0f the text with its YAML frontmatter blanked (the
+    helper parse() itself uses), before that the raw text.  Decided from the source of the tool that is under test."""
+    import inspect
+    A = api()
+    try:
+        if "_strip_yaml_frontmatter" in inspect.getsource(A.WriteTool.execute):
+            from octave_mcp.core.parser import _strip_yaml_frontmatter
+            return _strip_yaml_frontmatter(text)[0]
+    except Exception:
+        pass
+    return text
+
+
 def lenient_repairs(doc, sf, errs, lenient):
     """the repairs octave_write applies in lenient mode before it decides (enum casefold for the builtin dict
     schema, core.repair for a loaded definition), re-validated with the real Validator -> final error list"""
@@ -643,7 +683,7 @@ def run_write(W, case):
                                 reached = False
                     else:
                         try:
-                            A.tokenize(pi)
+                            A.tokenize(strict_tokenize_input(pi))
                             try:
                                 doc = A.parse(pi)
                                 parse_ok = True
@@ -1426,6 +1466,7 @@ def run(ctx):
             k = r["case"]["tool"] + ":" + str(r["status"])
             ctx.extra["responses_by_status"][k] = ctx.extra["responses_by_status"].get(k, 0) + 1
     history_stream(ctx)
+    resolution_history_stream(ctx)
     ctx.extra["run_s"] = round(time.time() - t0, 1)
     if not have_model:
         ctx.explanation = "extracted model not available: implementation-side property search only"
@@ -1480,9 +1521,247 @@ def history_stream(ctx):
         shutil.rmtree(root, ignore_errors=True)
 
 
+# ------------------------------------------------------------------------------------------------------------
+# resolution histories: "schema identity remembered instead of re-checked".  For every schema-resolution route the tools
+# accept (by name on cwd/specs/schemas, `latest`, `frozen@sha256:<H>` in $HOME/.octave/standards; there is no path route)
+# the SAME call is repeated in one process after the world changed between the calls: the slot file is rewritten in
+# place / replaced, with bytes of the same or another length, with the mtime restored or not, removed, re-created, and
+# cwd / $HOME are switched.  The facts are measured at the time of each call by the harness itself: it reads the slot,
+# hashes the bytes (frozen@), loads a FRESH COPY of those bytes from a never-used path and validates the document against
+# it.  The status must follow the facts at call time.
+RH_DOC = HIST_DOC
+RH_LAX = schema_text("HISTS", "REJECT", [("NAME", "ex", "REQ∧TYPE[STRING]")])
+RH_SAMELEN = RH_LAX.replace("  NAME::[", "  NAMZ::[")                       # same length, other bytes: document INVALID
+RH_STRICT = schema_text("HISTS", "REJECT", [("NAME", "ex", "REQ∧TYPE[STRING]"), ("OWNER", "ex", "REQ∧TYPE[STRING]")])
+RH_FIELDLESS = '===HISTS===\nMETA:\n  TYPE::PROTOCOL_DEFINITION\n  VERSION::"1.0"\n===END===\n'
+RH_BROKEN = "===HISTS===\nFIELDS:\n  NAME::[a,b\n===END===\n"
+RH_LAX_OTHER = schema_text("HISTS", "REJECT", [("NAME", "ex", "REQ∧TYPE[STRING]"), ("NOTE", "ex", "OPT")])   # other bytes, document still valid
+RH_VARIANTS = {"lax": RH_LAX, "lax_other": RH_LAX_OTHER, "samelen": RH_SAMELEN, "strict": RH_STRICT, "fieldless": RH_FIELDLESS, "broken": RH_BROKEN}
+RH_WANT = {"lax": "VALIDATED", "lax_other": "VALIDATED", "samelen": "INVALID", "strict": "INVALID", "fieldless": "UNVALIDATED", "broken": "UNVALIDATED",
+           "removed": "UNVALIDATED"}
+RH_DIGEST = hashlib.sha256(RH_LAX.encode()).hexdigest()
+RH_ROUTES = {   # route -> (schema argument, tools whose status must EQUAL the facts; the others must never overstate)
+    "name": ("HISTS", ("validate", "write")),
+    "latest": ("latest", ("write",)),
+    "frozen": ("frozen@sha256:" + RH_DIGEST, ("write",)),
+}
+RH_HOWS = ("inplace", "inplace+mtime", "replace", "replace+mtime")
+
+
+class RHWorld:
+    """two project directories (cwd candidates) and two homes under one root; a counter for fresh copies"""
+    def __init__(self, root, tag):
+        self.base = os.path.join(root, tag)
+        self.projs = [os.path.join(self.base, "proj%d" % i) for i in (0, 1)]
+        self.homes = [os.path.join(self.base, "home%d" % i) for i in (0, 1)]
+        for d in self.projs:
+            os.makedirs(os.path.join(d, "specs", "schemas"))
+        for d in self.homes:
+            os.makedirs(os.path.join(d, ".octave", "standards"))
+        self.fresh = os.path.join(self.base, "fresh")
+        os.makedirs(self.fresh)
+        self.n = 0
+        self.cur = 0
+        self.enter(0)
+
+    def enter(self, i):
+        self.cur = i
+        os.chdir(self.projs[i])
+        os.environ["HOME"] = self.homes[i]
+
+    def slot(self, route, i=None):
+        i = self.cur if i is None else i
+        if route == "name":
+            return os.path.join(self.projs[i], "specs", "schemas", "hists.oct.md")
+        if route == "latest":
+            return os.path.join(self.homes[i], ".octave", "standards", "default.oct.md")
+        return os.path.join(self.homes[i], ".octave", "standards", RH_DIGEST[:16] + ".oct.md")
+
+    def put(self, route, variant, how, i=None):
+        p = self.slot(route, i)
+        if variant == "removed":
+            if os.path.exists(p):
+                os.unlink(p)
+            return
+        data = RH_VARIANTS[variant].encode("utf-8")
+        st = os.stat(p) if os.path.exists(p) else None
+        if how.startswith("inplace") and st is not None:
+            with open(p, "r+b") as f:          # same inode
+                f.seek(0)
+                f.write(data)
+                f.truncate()
+        else:
+            tmp = p + ".new"
+            with open(tmp, "wb") as f:
+                f.write(data)
+            os.replace(tmp, p)
+        if how.endswith("+mtime") and st is not None:
+            os.utime(p, ns=(st.st_atime_ns, st.st_mtime_ns))
+
+    def facts_now(self, route):
+        """(expected status, facts dict) from the bytes that are in the slot NOW"""
+        A = api()
+        p = self.slot(route)
+        facts = {"slot": os.path.relpath(p, self.base), "exists": os.path.exists(p), "sha256": None, "digest_matches": None,
+                 "variant": "removed", "found": False, "errs": False}
+        if not facts["exists"]:
+            return "UNVALIDATED", facts
+        data = open(p, "rb").read()
+        facts["sha256"] = hashlib.sha256(data).hexdigest()
+        facts["variant"] = next((k for k, v in RH_VARIANTS.items() if v.encode("utf-8") == data), "other")
+        if route == "frozen":
+            facts["digest_matches"] = facts["sha256"] == RH_DIGEST
+            if not facts["digest_matches"]:
+                return "UNVALIDATED", facts
+        self.n += 1
+        copy = os.path.join(self.fresh, "copy%d.oct.md" % self.n)
+        with open(copy, "wb") as f:
+            f.write(data)
+        try:
+            sd = A.load_schema(copy)
+        except Exception:
+            sd = None
+        if sd is None or not sd.fields:
+            return "UNVALIDATED", facts
+        facts["found"] = True
+        doc = A.parse(RH_DOC)
+        facts["errs"] = bool(A.Validator(schema=None).validate(doc, strict=False, section_schemas={sd.name: sd}))
+        return ("INVALID" if facts["errs"] else "VALIDATED"), facts
+
+
+def rh_calls(W, route, full):
+    A = api()
+    arg = RH_ROUTES[route][0]
+    out = [("validate", call(A.ValidateTool(), dict(content=RH_DOC, schema=arg))),
+           ("write", call(A.WriteTool(), dict(target_path=os.path.join(W.projs[W.cur], "out.oct.md"), content=RH_DOC, schema=arg,
+                                              corrections_only=True)))]
+    if full:
+        out.append(("eject", call(A.EjectTool(), dict(content=RH_DOC, schema=arg))))
+        out.append(("grammar", call(A.CompileGrammarTool(), dict(schema=arg))))
+    return out
+
+
+def run_history(root, tag, route, ops, full=True):
+    """ops: [("put", variant, how) | ("switch", i) | ("put_other", variant)] ; after every op all tools are called.
+    -> (n_calls, [failure dict])"""
+    old_cwd, old_home = os.getcwd(), os.environ.get("HOME")
+    fails, n = [], 0
+    try:
+        W = RHWorld(root, tag)
+        done = []
+        for op in ops:
+            if op[0] == "put":
+                W.put(route, op[1], op[2])
+            elif op[0] == "put_other":
+                W.put(route, op[1], "replace", i=1 - W.cur)
+            elif op[0] == "switch":
+                W.enter(op[1])
+            done.append(list(op))
+            expected, facts = W.facts_now(route)
+            by_construction = RH_WANT.get(facts["variant"])
+            if route == "frozen" and facts["exists"] and not facts["digest_matches"]:
+                by_construction = "UNVALIDATED"
+            if by_construction is not None and by_construction != expected:
+                fails.append({"harness": True, "what": "history harness: measured expectation %s differs from the construction %s for %s"
+                              % (expected, by_construction, facts)})
+                continue
+            for tool, r in rh_calls(W, route, full):
+                n += 1
+                got = r.get("validation_status") if isinstance(r, dict) else None
+                exact = tool in RH_ROUTES[route][1]
+                bad = None
+                if got not in STATUSES:
+                    bad = "validation_status %r is not one of the three" % (got,)
+                elif exact and got != expected:
+                    bad = "validation_status %s does not follow the facts at the time of the call (expected %s)" % (got, expected)
+                elif got == "VALIDATED" and not (facts["found"] and not facts["errs"]):
+                    bad = "VALIDATED although the named schema is not found (or reports errors) at the time of the call"
+                elif got == "INVALID" and not (facts["found"] and facts["errs"]):
+                    bad = "INVALID although the schema found at the time of the call reports no error (or none is found)"
+                if bad:
+                    fails.append({"stream": "resolution-history", "route": route, "tool": "octave_" + tool if tool != "grammar" else "octave_compile_grammar",
+                                  "schema_arg": RH_ROUTES[route][0], "content": RH_DOC, "history": [list(x) for x in done],
+                                  "facts_at_call": facts, "validation_status": got, "expected": expected,
+                                  "schema_name": r.get("schema_name") if isinstance(r, dict) else None, "what": bad})
+        return n, fails
+    finally:
+        os.chdir(old_cwd)
+        if old_home is None:
+            os.environ.pop("HOME", None)
+        else:
+            os.environ["HOME"] = old_home
+
+
+def rh_histories(ctx):
+    """[(route, ops)]"""
+    rng = ctx.rng
+    states = ["lax", "lax_other", "samelen", "strict", "fieldless", "broken", "removed"]
+    hows = RH_HOWS if not ctx.quick() else ("inplace+mtime", "replace")
+    out = []
+    for route in RH_ROUTES:
+        for a in states:
+            for b in states:
+                if a == b:
+                    continue
+                for how in hows:
+                    # a, then b in the same slot, then a again, then b again (what was seen first must not stick)
+                    out.append((route, [("put", a, "replace"), ("put", b, how), ("put", a, how), ("put", b, how)]))
+        # re-creation after removal, and the identical bytes again
+        out.append((route, [("put", "lax", "replace"), ("put", "removed", "replace"), ("put", "lax", "replace"), ("put", "lax", "inplace")]))
+        # cwd / $HOME switched between calls: the other world holds other bytes in the same relative slot
+        for a in states:
+            for b in states:
+                if a != b:
+                    out.append((route, [("put", a, "replace"), ("put_other", b), ("switch", 1), ("switch", 0), ("switch", 1)]))
+        for _ in range(ctx.scale(10, 120)):
+            ops = []
+            for _k in range(rng.randint(4, 9)):
+                r = rng.random()
+                if r < 0.7:
+                    ops.append(("put", rng.choice(states), rng.choice(RH_HOWS)))
+                elif r < 0.85:
+                    ops.append(("put_other", rng.choice(states)))
+                else:
+                    ops.append(("switch", rng.randint(0, 1)))
+            out.append((route, ops))
+    return out
+
+
+def resolution_history_stream(ctx):
+    root = os.path.realpath(tempfile.mkdtemp(prefix="c10rh_"))
+    t0 = time.time()
+    try:
+        hs = rh_histories(ctx)
+        n_fail = 0
+        for k, (route, ops) in enumerate(hs):
+            n, fails = run_history(root, "h%d" % k, route, ops, full=(k % 3 == 0 or not ctx.quick()))
+            ctx.count(n)
+            ctx.hist("resolution-history:route", route)
+            ctx.nontrivial(("resolution-history", route, tuple(tuple(o) for o in ops)))
+            for f in fails:
+                if f.get("harness"):
+                    ctx.obligation_failure("harness", f["what"])
+                elif n_fail < 40:
+                    n_fail += 1
+                    ctx.property_failure(f, "resolution-history: %s %s: %s (history %s)" % (f["tool"], f["route"], f["what"], f["history"]))
+            shutil.rmtree(os.path.join(root, "h%d" % k), ignore_errors=True)
+        ctx.extra["resolution_histories"] = len(hs)
+        ctx.extra["resolution_history_s"] = round(time.time() - t0, 1)
+    finally:
+        shutil.rmtree(root, ignore_errors=True)
+
+
 def replay(ctx, case):
     """./check C10 --replay file : re-run one recorded case and print what the property check says"""
     c = case.get("case", case)
+    if c.get("stream") == "resolution-history":
+        root = os.path.realpath(tempfile.mkdtemp(prefix="c10rh_"))
+        try:
+            n, fails = run_history(root, "replay", c["route"], [tuple(o) for o in c["history"]])
+            print(json.dumps({"calls": n, "fails": fails}, indent=1, default=str))
+            return 1 if fails else 0
+        finally:
+            shutil.rmtree(root, ignore_errors=True)
     c = c.get("case", c)
     out = run_chunk([c])[0]
     print(json.dumps({k: out.get(k) for k in ("line", "obs", "fails", "raised", "status", "harness_error")}, indent=1))
